@@ -68,7 +68,35 @@ def derive_async_oracle(src_text):
     if "c.finalize()" in fn or ".await.await" in fn:
         raise RuntimeError("derive_async_oracle: leftover")
     fn = fn.replace('&["C', '&["C19", "C')      # every clause of the async flavour also serves C19
-    return head + fn
+    return head + fn + _derive_async_extremes(s)
+
+
+def _derive_async_extremes(s):
+    """the bounded guard `extreme_configurations_work` for the async flavour: same configurations and workload, AsyncCache built with
+    finalize(tokio::spawn), calls awaited, workload inside a tokio runtime of its own"""
+    if "fn extreme_configurations_work()" not in s:
+        return ""
+    a = s.index("#[test]\nfn extreme_configurations_work() {")
+    b = s.index("\n}\n", a) + 3
+    fn = s[a:b]
+    fn = fn.replace("fn extreme_configurations_work()", "fn async_extreme_configurations_work()").replace('"extreme_configurations_work"', '"async_extreme_configurations_work"')
+    w0 = fn.index("/*WORKLOAD-BEGIN*/")
+    w1 = fn.index("/*WORKLOAD-END*/")
+    body = fn[w0:w1]
+    for frm, to in (("Cache<u64, u64, TransparentKeyBuilder<u64>>", "AsyncCache<u64, u64, TransparentKeyBuilder<u64>>"), ("Cache::builder(", "AsyncCache::builder("),
+                    (".finalize()", ".finalize(tokio::spawn)"), ("c.wait().is_ok()", "c.wait().await.is_ok()"), ("c.insert(k, k, 1);", "c.insert(k, k, 1).await;"),
+                    ("c.get(&0);", "c.get(&0).await;"), ("c.get(&7);", "c.get(&7).await;"), ("c.insert(0, 100, 1);", "c.insert(0, 100, 1).await;"),
+                    ("c.insert_with_ttl(5, 5, 1, Duration::from_millis(1));", "c.insert_with_ttl(5, 5, 1, Duration::from_millis(1)).await;"),
+                    ("c.remove(&1);", "c.remove(&1).await;"), ("c.clear().is_err()", "c.clear().await.is_err()"), ("c.insert(9, 9, 1);", "c.insert(9, 9, 1).await;"),
+                    ("c.close().is_err()", "c.close().await.is_err()"), ("std::thread::sleep(Duration::from_millis(1));", "tokio::time::sleep(Duration::from_millis(1)).await;"),
+                    ("std::thread::sleep(Duration::from_millis(20));", "tokio::time::sleep(Duration::from_millis(20)).await;")):
+        if frm not in body:
+            raise RuntimeError("derive async extremes: %s not found" % frm)
+        body = body.replace(frm, to)
+    body = ("tokio::runtime::Builder::new_multi_thread().worker_threads(2).enable_all().build().unwrap().block_on(async {\n" + body + "\n})")
+    fn = fn[:w0] + body + fn[w1:]
+    fn = fn.replace('"Cache::builder(', '"AsyncCache::builder(').replace('&["C', '&["C19", "C')
+    return "\n" + fn
 
 
 def derive_async_sweep_oracle(src_text):
